@@ -363,7 +363,7 @@ pub fn run(args: Args) -> ! {
     rep.rule = "byte strings <= 8 KiB: raw random bytes biased to TOML punctuation, byte/line/digit mutants of generated and corpus documents (incl. invalid UTF-8), every truncation of every corpus document <= 400 bytes, 40 structure-aware extreme templates (400-digit numbers, huge exponents, long fractions, unterminated constructs, nesting) at generated sizes, untouched valid documents. Each input goes through 20 entry points (document/value/item/key parsers, serde deserializers from text, bytes and documents, value deserializers, the standalone date-time parser) and then Display, Debug, Clone, drop, into_mut, from_document, to_string / to_string_pretty and error rendering, in a build with debug assertions and overflow checks. Oracle: no panic (caught and shrunk), no death of the worker process (bisected), per-input time within 3 s + 1 ms/byte (else inconclusive). non-trivial = accepted or not rejected within the first 4 bytes; distinct by bytes".into();
     rep.assumptions = vec!["termination is only observed through a generous wall-clock budget; exceeding it is reported as inconclusive (exit 2), never as a violation".into()];
     if let Some(p) = &args.replay {
-        let j = super::load_replay(p);
+        let j = super::load_replay_any(p);
         let bytes: Vec<u8> = j["case"]["bytes"].as_array().map(|b| b.iter().map(|v| v.as_u64().unwrap_or(0) as u8).collect()).unwrap_or_default();
         let mut st = Stats::new();
         if let Err(f) = run_one(&bytes, &mut st) {
